@@ -21,6 +21,7 @@ import (
 	"os"
 	"sort"
 	"strconv"
+	"strings"
 	"sync"
 	"time"
 
@@ -147,9 +148,17 @@ func mkLogs(items []int64) plog.Logs {
 	return ld
 }
 
+// companionErr marks the failures of the companion request (see runScript): its log entries and attempts are not part of
+// the recorded trace of the script's own request.
+const companionErr = "companion request: transient failure"
+
 func (r *runner) push(ctx context.Context, ld plog.Logs) error {
 	a := nowUs()
 	got := ids(ld)
+	if len(got) > 0 && got[0] >= 900 {
+		// the companion request: always fails retryably, at once
+		return errors.New(companionErr)
+	}
 	r.mu.Lock()
 	r.n++
 	n := r.n
@@ -244,6 +253,13 @@ func (c core) Check(e zapcore.Entry, ce *zapcore.CheckedEntry) *zapcore.CheckedE
 
 func (c core) Write(_ zapcore.Entry, fields []zapcore.Field) error {
 	for _, f := range fields {
+		if f.Key == "error" {
+			if e, ok := f.Interface.(error); ok && e != nil && strings.Contains(e.Error(), companionErr) {
+				return nil // announced for the companion request, not for the script's own
+			}
+		}
+	}
+	for _, f := range fields {
 		if f.Key != "interval" || f.Type != zapcore.StringType {
 			continue
 		}
@@ -319,6 +335,20 @@ func runScript(sid int, sc script, unit time.Duration) ([]event, error) {
 		defer c2()
 		deadline = int64(dl.Sub(t0) / time.Microsecond)
 	}
+	// "for every request": every third script sends a COMPANION request through the same exporter while its own request is
+	// being retried -- another request that keeps failing retryably.  Retrying is decided per request: the companion must
+	// not change when, how often and after which waits the script's own request is retried (seeded change C05-6 shared one
+	// back-off progression between all requests of an exporter).  The model is unchanged.
+	var cwg sync.WaitGroup
+	cctx, ccancel := context.WithCancel(context.Background())
+	if sc.Cfg.Enabled && sid%3 == 0 {
+		cwg.Add(1)
+		go func() {
+			defer cwg.Done()
+			_ = exp.ConsumeLogs(cctx, mkLogs([]int64{901, 902}))
+		}()
+		time.Sleep(unit / 4)
+	}
 	tc := nowUs()
 	err = exp.ConsumeLogs(ctx, mkLogs(items))
 	tr := nowUs() + 1
@@ -340,6 +370,8 @@ func runScript(sid int, sc script, unit time.Duration) ([]event, error) {
 	r.wg.Wait()
 	r.doStop()
 	cancel()
+	ccancel()
+	cwg.Wait()
 	r.mu.Lock()
 	defer r.mu.Unlock()
 	stop0, stop1 := r.stop0, r.stop1
